@@ -2,6 +2,7 @@ import Driver.Util
 import Driver.Varint
 import Driver.Sql
 import Driver.SqlDb
+import Driver.Budget
 
 def main (args : List String) : IO UInt32 := do
   let stdin ← IO.getStdin
@@ -9,6 +10,7 @@ def main (args : List String) : IO UInt32 := do
   -- buffered output: collect through a BufferedWriter-like approach (IO.FS.Stream is line buffered by the runtime)
   match args with
   | ["varint"] => Driver.loop stdin stdout () Driver.Varint.step; return 0
+  | ["budget"] => Driver.loop stdin stdout (TurVerif.Budget.init 0 []) Driver.Budget.step; return 0
   | ["sqldb"] => Driver.loop stdin stdout ({} : TurVerif.SqlDb.DbState) Driver.SqlDb.step; return 0
   | ["sql"] => Driver.loop stdin stdout ([] : TurVerif.Sql.Db) Driver.Sql.step; return 0
   | _ => IO.eprintln "usage: tvmodel <family>"; return 2
